@@ -81,5 +81,7 @@ pub fn mods_from_int(v: u32) -> Modifiers {
         lalt: v & 64 != 0,
         ralt: v & 128 != 0,
         rctrl2: v & 256 != 0,
+        // tolerate fields added to Modifiers later (they start at their default)
+        ..Default::default()
     }
 }
